@@ -114,13 +114,19 @@ def real_setup(rnd, mass_kind, bounded, d):
         target = D.CompositeDistribution([D.Normal(means[i:i + 1].copy(), var[i:i + 1].copy(), lower_bounds=lo[i:i + 1].copy(), upper_bounds=hi[i:i + 1].copy())
                                           for i in range(d)])
         target._c01_box = (lo, hi)
+    # the same dynamics in other units: (c M, sqrt(c) p, sqrt(c) h) follows the trajectory of (M, p, h) for any c > 0
+    scale = rnd.choice([1.0, 1.0, 2.0 ** -40, 2.0 ** 30]) if not bounded else 1.0
     if mass_kind == "unit":
-        mass = hmclab.MassMatrices.Unit(d)
+        mass, M = hmclab.MassMatrices.Unit(d), numpy.eye(d)
+        scale = 1.0
     elif mass_kind == "diagonal":
-        mass = hmclab.MassMatrices.Diagonal(numpy.array([rnd.choice([0.5, 1.0, 2.0, 3.0]) for _ in range(d)]))
+        dg = scale * numpy.array([rnd.choice([0.5, 1.0, 2.0, 3.0]) for _ in range(d)])
+        mass, M = hmclab.MassMatrices.Diagonal(dg.copy()), numpy.diag(dg)
     else:
         a = numpy.array([[rnd.randint(-4, 4) / 8.0 for _ in range(d)] for _ in range(d)])
-        mass = hmclab.MassMatrices.Full(a @ a.T + numpy.eye(d))
+        M = scale * (a @ a.T + numpy.eye(d))
+        mass = hmclab.MassMatrices.Full(M.copy())
+    mass._c01_M, mass._c01_scale = M, scale
     return target, mass, means, lo, hi
 
 
@@ -189,9 +195,9 @@ def reversal_case(rnd, tier, force=None):
         if bounded and mass_kind == "full":
             mass_kind = "diagonal"          # Full mass with reflection is the recorded known finding
         target, mass, means, lo, hi = real_setup(rnd, mass_kind, bounded, d)
-        cfg = {"d": d, "stepsize": rnd.choice([0.05, 0.1, 0.2, 0.3]), "steps": rnd.randint(1, 8), "randomize": False}
+        cfg = {"d": d, "stepsize": rnd.choice([0.05, 0.1, 0.2, 0.3]) * math.sqrt(mass._c01_scale), "steps": rnd.randint(1, 8), "randomize": False}
         q = means + numpy.array([rnd.randint(-6, 6) / 8.0 for _ in range(d)]).reshape(-1, 1)
-        p = numpy.array([rnd.randint(-24, 24) / 8.0 for _ in range(d)]).reshape(-1, 1)
+        p = math.sqrt(mass._c01_scale) * numpy.array([rnd.randint(-24, 24) / 8.0 for _ in range(d)]).reshape(-1, 1)
         if bounded and rnd.random() < 0.35:
             # start in a corner of the box, moving outwards: several coordinates leave through different walls in one drift
             side = numpy.array([rnd.choice([-1.0, 1.0]) for _ in range(d)]).reshape(-1, 1)
@@ -204,8 +210,19 @@ def reversal_case(rnd, tier, force=None):
     q1, p1, _ = propagate(smp, integ, col(q), col(p))
     single_back, _ = reflections_single(target, mass, integ, cfg, q1, [-v for v in p1], None)
     q2, p2, _ = propagate(smp, integ, q1, [-v for v in p1])
-    err = max(float(numpy.max(numpy.abs(numpy.array(q2) - q.flatten()))), float(numpy.max(numpy.abs(-numpy.array(p2) - p.flatten()))))
-    return {"integrator": integ, "mass": mass_kind, "bounded": bounded, "d": d, "stepsize": cfg["stepsize"], "steps": cfg["steps"],
+    psc = math.sqrt(getattr(mass, "_c01_scale", 1.0))
+    err = max(float(numpy.max(numpy.abs(numpy.array(q2) - q.flatten()))), float(numpy.max(numpy.abs(-numpy.array(p2) - p.flatten()))) / psc)
+    drift_err = None
+    if not bounded and not force:
+        # the same trajectory with the drift velocity taken from the matrix itself (solve(M, p)): positions may move only
+        # through the mass matrix that was handed over, whatever its scale
+        import copy
+        M = mass._c01_M
+        ref = copy.deepcopy(mass)
+        ref.kinetic_energy_gradient = lambda mom, *a, M=M, **k: numpy.linalg.solve(M, numpy.asarray(mom, dtype=float).reshape(-1, 1))
+        rq1, rp1, _ = propagate(make_sampler(cfg, target, ref, numpy.random.default_rng(5)), integ, col(q), col(p))
+        drift_err = max(float(numpy.max(numpy.abs(numpy.array(q1) - numpy.array(rq1)))), float(numpy.max(numpy.abs(numpy.array(p1) - numpy.array(rp1)))) / psc)
+    return {"drift_error": drift_err, "mass_scale": psc * psc, "integrator": integ, "mass": mass_kind, "bounded": bounded, "d": d, "stepsize": cfg["stepsize"], "steps": cfg["steps"],
             "q": col(q), "p": col(p), "reflected": reflected, "single_bounce": single and single_back, "error": err,
             "proposal": [q1, p1], "back": [q2, p2]}
 
@@ -303,6 +320,11 @@ def run(tier, seed):
         d_ = reversal_case(rnd, tier)
         dist["reversal_cases"] += 1
         dist["reversal_with_reflection"] += int(d_["reflected"])
+        if d_.get("drift_error") is not None:
+            dist["drift_through_matrix_checks"] = dist.get("drift_through_matrix_checks", 0) + 1
+            if not (d_["drift_error"] <= 1e-9):
+                violations.append(Violation("drift-not-through-the-mass-matrix", f"{d_['integrator']} with {d_['mass']} mass (matrix scaled by {d_['mass_scale']}): the proposal differs by "
+                                            f"{d_['drift_error']:.3g} from the same scheme with the drift velocity solve(M, p)", {"reversal": d_}))
         if not d_["single_bounce"]:
             dist["reversal_skipped_multibounce"] += 1
             continue
